@@ -161,6 +161,40 @@ class Sim(object):
         self.puts = []
         self.steps = 0
         self.cleanup = False
+        self.stalls = None        # wave 12: {'at': [[k, d], ...]} and/or {'every': n, 'd': d}: the k-th send made by a setpoint
+        self.sp_sends = 0         #          thread blocks for d virtual seconds (a stalled link) before it reaches the recorder
+
+    def set_stalls(self, spec):
+        self.stalls = spec or None
+
+    def next_stall(self):
+        """duration for which the send now being made by a setpoint thread blocks (0 = not at all)"""
+        k = self.sp_sends
+        self.sp_sends += 1
+        sp = self.stalls
+        if not sp or self.cleanup:
+            return 0
+        for kk, d in sp.get('at', []):
+            if kk == k:
+                return self.num(d)
+        n = sp.get('every')
+        if n and k >= sp.get('from', 0) and (k - sp.get('from', 0)) % n == 0:
+            return self.num(sp['d'])
+        return 0
+
+    def stall(self, d):
+        """called in a setpoint thread: it is stuck inside a send for d virtual seconds; the other threads go on"""
+        rec = self.by_thread.get(threading.current_thread())
+        if rec is None or not d or d <= 0:
+            return
+        wake = self.now + d
+        rec.waiting = (None, wake)
+        while True:
+            self.main_sem.release()
+            rec.sem.acquire()
+            if self.now >= wake:
+                rec.waiting = None
+                return
 
     def num(self, v):
         if v is None:
@@ -181,7 +215,7 @@ class Sim(object):
         if rec.done or rec.waiting is None:
             return False
         q, dl = rec.waiting
-        return bool(q.items) or (dl is not None and self.now >= dl)
+        return (q is not None and bool(q.items)) or (dl is not None and self.now >= dl)
 
     def _step(self, rec):
         self.steps += 1
@@ -230,16 +264,23 @@ class Sim(object):
         t.start()
         self._step(rec)     # runs until its first blocking get
 
-    def join_thread(self, obj):
+    def join_thread(self, obj, timeout=None):
+        """Thread.join([timeout]) of the commanding thread: blocks in virtual time until the thread has ended or, with a
+        timeout, until that much time has passed (then the thread may still be alive)"""
         rec = obj._c17_rec
+        target = None if timeout is None else self.now + timeout
         while not rec.done:
             self.flush()
             if rec.done:
                 break
             dls = [r.waiting[1] for r in self.alive() if r.waiting and r.waiting[1] is not None]
-            if not dls:
+            nxt = min(dls) if dls else None
+            if target is not None and (nxt is None or nxt > target):
+                self.now = target
+                return
+            if nxt is None:
                 raise SimHang('join on a thread that waits forever')
-            self.now = min(dls)
+            self.now = nxt
             self.steps += 1
             if self.steps > MAX_STEPS:
                 raise SimHang('join never returns')
@@ -317,11 +358,11 @@ class Sim(object):
         self.cleanup = True
         for rec in self.alive():
             try:
-                if rec.waiting:
-                    rec.waiting[0].items[:] = [rec.obj.TERMINATE_EVENT]
-                for _ in range(50):
+                for _ in range(200):
                     if rec.done:
                         break
+                    if rec.waiting and rec.waiting[0] is not None:
+                        rec.waiting[0].items[:] = [rec.obj.TERMINATE_EVENT]
                     if self._runnable(rec):
                         self._step(rec)
                     elif rec.waiting and rec.waiting[1] is not None:
@@ -355,6 +396,8 @@ class Recorder(object):
             raise AttributeError(name)
 
         def call(*a, **kw):
+            if name == 'send_hover_setpoint' and threading.current_thread() in self._sim.by_thread:
+                self._sim.stall(self._sim.next_stall())       # a stalled link: the send blocks, then goes through
             ev = [self._prefix + name, self._sim.now] + list(a)
             if kw:
                 ev.append(sorted(kw.items()))
@@ -372,8 +415,10 @@ class FakeCF(object):
         self.high_level_commander = Recorder(sim, 'h.')
         self.param = Recorder(sim, 'p.')
 
+    connected = True          # what is_connected() reports; the 'link_state' program element changes it during a body
+
     def is_connected(self):
-        return True
+        return self.connected
 
 
 class _Patch(object):
@@ -413,6 +458,8 @@ def classify_exc(e):
             return 'AlreadyFlying'
         if 'Can not move on the ground' in msg:
             return 'NotFlying'
+        if 'is not connected' in msg:
+            return 'NotConnected'
         return 'Exception:' + msg[:60]
     return 'Other:' + type(e).__name__
 
@@ -434,6 +481,7 @@ def run_mc(case, exact):
     import cflib.positioning.motion_commander as M
     with _run_lock:
         sim = Sim(exact, case.get('sched', []))
+        sim.set_stalls(case.get('stalls'))
         P = _Patch()
         P.set(M, 'time', FakeTime(sim))
         P.set(M, 'Queue', sim.make_queue_class())
@@ -441,7 +489,7 @@ def run_mc(case, exact):
         if exact:
             P.set(M, 'math', xm)
         P.set(M._SetPointThread, 'start', lambda self: sim.start_thread(self))
-        P.set(M._SetPointThread, 'join', lambda self, timeout=None: sim.join_thread(self))
+        P.set(M._SetPointThread, 'join', lambda self, timeout=None: sim.join_thread(self, timeout))
         entered = False
         exc = None
         mc = None
@@ -461,6 +509,8 @@ def run_mc(case, exact):
                             raise UserError()
                         if op[0] == 'wait':             # the user's own time.sleep(d) between commands
                             sim.sleep(sim.num(op[1]))
+                        elif op[0] == 'link_state':     # the link goes down / comes back while the body runs
+                            cf.connected = bool(op[1])
                         else:
                             _call(mc, op[0], op[1:], sim)
                         marks.append((len(sim.events), len(sim.puts), sim.now, bool(mc._is_flying)))
@@ -527,7 +577,10 @@ def run_hl(case, exact):
                     for op in case['ops']:
                         if op[0] == 'raise':
                             raise UserError()
-                        _call(pc, op[0], op[1:], sim)
+                        if op[0] == 'link_state':
+                            cf.connected = bool(op[1])
+                        else:
+                            _call(pc, op[0], op[1:], sim)
                         positions.append(list(pc.get_position()))
                         marks.append((len(sim.events), bool(pc._is_flying), pc._default_velocity))
             except NotExact:
@@ -602,10 +655,14 @@ class WireCF(object):
         self.high_level_commander = CallTap(HighLevelCommander(self), sim, self.calls, self.wire, 'h.')
         self.param = Recorder(sim, 'p.')
 
+    connected = True          # what is_connected() reports; the 'link_state' program element changes it during a body
+
     def is_connected(self):
-        return True
+        return self.connected
 
     def send_packet(self, pk, *a, **kw):
+        if threading.current_thread() in self._sim.by_thread:
+            self._sim.stall(self._sim.next_stall())           # e.g. RadioDriver.send_packet blocking on a full out queue
         # last field: the protocol version of the firmware connected in this session (who will have to decode the packet)
         self.wire.append((self._sim.now, int(pk.port), int(pk.channel), bytes(pk.data), self.platform._v))
         self.pending.append(pk)
@@ -627,12 +684,13 @@ def run_wire(case):
     import cflib.positioning.position_hl_commander as H
     with _run_lock:
         sim = Sim(False, case.get('sched', []))
+        sim.set_stalls(case.get('stalls'))
         P = _Patch()
         P.set(M, 'time', FakeTime(sim))
         P.set(M, 'Queue', sim.make_queue_class())
         P.set(H, 'time', FakeTime(sim))
         P.set(M._SetPointThread, 'start', lambda self: sim.start_thread(self))
-        P.set(M._SetPointThread, 'join', lambda self, timeout=None: sim.join_thread(self))
+        P.set(M._SetPointThread, 'join', lambda self, timeout=None: sim.join_thread(self, timeout))
         try:
             with warnings.catch_warnings():
                 warnings.simplefilter('ignore')
@@ -643,6 +701,7 @@ def run_wire(case):
                     # a new session on the same Crazyflie object: the platform service reports the version of the firmware
                     # connected now (the commanders read it through cf.platform.get_protocol_version() when they send)
                     cf.platform._v = fl.get('version', case.get('version', 10))
+                    cf.connected = True
                     w0, c0 = len(cf.wire), len(cf.calls)
                     entered, exc, marks = False, None, []
                     key = fl.get('reuse')
@@ -671,6 +730,8 @@ def run_wire(case):
                                     raise UserError()
                                 if op[0] == 'wait':
                                     sim.sleep(sim.num(op[1]))
+                                elif op[0] == 'link_state':
+                                    cf.connected = bool(op[1])
                                 else:
                                     _call(obj, op[0], op[1:], sim)
                                 marks.append((len(cf.wire), bool(obj._is_flying), sim.now))
@@ -693,6 +754,8 @@ def run_wire(case):
                         'period': M._SetPointThread.UPDATE_PERIOD, 'version': case.get('version', 10)}
         finally:
             try:
-                sim.terminate_all()
+                with warnings.catch_warnings():
+                    warnings.simplefilter('ignore')
+                    sim.terminate_all()
             finally:
                 P.restore()
